@@ -1,10 +1,17 @@
 (* C13: no client input can crash the server or leave a request unanswered.
-   PROOF HALF ONLY: statements about the model coq/Sys/PanicSites.v (session / hub routing of every
-   message kind, the modelled panic sites, configurations as explicit parameters).  Panic-freedom of
-   unmodelled Go code is NOT proved here; it is tested by the fuzz half of the check.
+   PROOF HALF ONLY: statements about the models coq/Sys/PanicSites.v (session / hub routing of every
+   message kind, the modelled panic sites, configurations as explicit parameters), coq/Sys/DefAccess.v
+   (the in-topic default-access site: getDefaultAccess / Topic.accessFor and the handlers that reach it)
+   and coq/Pure/Drafty.v (message content rendered into notification previews: the Drafty span pipeline).
+   Panic-freedom of Go code outside these models is NOT proved here; it is tested by the fuzz half of
+   the check.
 
    [handle rp c st f]: outcome of one wire frame [f] in state [st] under configuration [c];
-   [rp = no_repairs] is the code as it is, [rp = all_repairs] the code after findings/C13_*.diff. *)
+   [rp = all_repairs] is the code as it is (/repo HEAD: the repairs findings/C13_*.diff and f52b053 are
+   `fix:` commits), [rp = no_repairs] the code before those repairs.
+   [run rp c st ms]: the outcomes of a history of requests of one session, the state being advanced by
+   [after] (attachments and the cached subscription of the acting user, which is what the default-access
+   site reads). *)
 From Coq Require Import List NArith ZArith Bool.
 Import ListNotations.
 Require Import Tinode.Sys.PanicSites Tinode.Sys.PanicSitesProofs.
@@ -30,13 +37,17 @@ Theorem c13_witnesses :
   handle no_repairs cfg_nomedia st_hi (Decoded w_acc_att) = Panic site_media_link /\
   handle no_repairs cfg_all st_in (PbSet (msg0 KSet) true true) = Panic site_pb_setquery /\
   handle no_repairs cfg_all st_root_p2p (Decoded w_pub_obo) = Panic site_p2p_original /\
-  handle no_repairs cfg_all st_root_p2p (Decoded w_get_obo) = Panic site_p2p_original.
+  handle no_repairs cfg_all st_root_p2p (Decoded w_get_obo) = Panic site_p2p_original /\
+  handle no_repairs cfg_all st_root_sys_banned (Decoded w_sub_sys) = Panic site_defacs /\
+  run no_repairs cfg_all st_root w_defacs = [rep 200 [55]; rep 200 [55]; Panic site_defacs].
 Proof. vm_compute. repeat split. Qed.
 Print Assumptions c13_witnesses.
 
-(* the code as it is panics ONLY on the listed triggers: [trigger] is a predicate on the input
+(* the code before the repairs panics ONLY on the listed triggers: [trigger] is a predicate on the input
    (unknown tmpscheme; {note call} / {del topic} on a name GetTopicCat does not know; attachments
-   without a media handler; obo of a non-member on an attached P2P topic; empty gRPC SetQuery) *)
+   without a media handler; obo of a non-member on an attached P2P topic; empty gRPC SetQuery; a request that
+   makes the sys topic ask for its default access mode: {sub} / {set sub} of a self-banned subscriber without a
+   mode, {set sub user=..} inviting a new user without a mode) *)
 Theorem c13_no_panic_partial :
   forall c st f, state_wf st = true -> trigger c st f = false -> is_panic (handle no_repairs c st f) = false.
 Proof.
@@ -51,6 +62,58 @@ Theorem c13_no_panic :
   forall c st f, state_wf st = true -> is_panic (handle all_repairs c st f) = false.
 Proof. exact handle_safe. Qed.
 Print Assumptions c13_no_panic.
+
+(* the same over histories of requests of one session (the state advanced by [after]) *)
+Theorem c13_no_panic_history :
+  forall c st ms, state_wf st = true -> Forall (fun o => is_panic o = false) (run all_repairs c st ms).
+Proof. intros c st ms H. exact (run_safe c ms st H). Qed.
+Print Assumptions c13_no_panic_history.
+
+(* ---- the in-topic default-access site (getDefaultAccess / Topic.accessFor) ---- *)
+(* getDefaultAccess as it is returns for each of the five topic categories, whatever the other arguments *)
+Theorem c13_default_access_total :
+  forall cat auth_user is_chan, exists mode, get_default_access all_repairs cat auth_user is_chan = Some mode.
+Proof. exact default_access_total. Qed.
+Print Assumptions c13_default_access_total.
+
+(* before /repo f52b053 the table lacked exactly the sys topic *)
+Theorem c13_default_access_unrepaired :
+  forall cat auth_user is_chan, get_default_access no_repairs cat auth_user is_chan = None <-> (cat = CatSys /\ auth_user = true).
+Proof. exact default_access_unrepaired. Qed.
+Print Assumptions c13_default_access_unrepaired.
+
+(* every call site that a client request reaches: thisUserSub (new subscription, un-self-ban), anotherUserSub
+   (invite with the default mode), replySetSub, the registration handler, initTopicFnd / initTopicNewGrp,
+   replyCreateUser - for every topic (all five categories), every cached subscription, every request *)
+Theorem c13_default_access_sites :
+  forall st ti u target m,
+    is_panic (this_user_sub all_repairs st ti u m) = false /\
+    is_panic (another_user_sub all_repairs st ti u target m) = false /\
+    is_panic (reply_set_sub all_repairs st ti u m) = false /\
+    is_panic (topic_reg all_repairs st ti u m) = false /\
+    (forall cat is_chan, init_defaults all_repairs cat is_chan = true) /\
+    new_user_defaults all_repairs = true.
+Proof.
+  intros st ti u target m. repeat split.
+  - apply this_user_sub_safe.
+  - apply another_user_sub_safe.
+  - apply reply_set_sub_safe.
+  - apply topic_reg_safe.
+  - intros cat is_chan. destruct cat, is_chan; reflexivity.
+Qed.
+Print Assumptions c13_default_access_sites.
+
+(* full statement over histories for the code before f52b053, refuted by the three-request witness found by the
+   lifecycle stream of the fuzz half: a root session sends {sub sys}; {set sys sub mode=N}; {sub sys} *)
+Definition c13_default_access_unrepaired_statement : Prop :=
+  forall c st ms, state_wf st = true -> Forall (fun o => is_panic o = false) (run no_repairs c st ms).
+
+Theorem c13_default_access_unrepaired_refuted : ~ c13_default_access_unrepaired_statement.
+Proof.
+  intros H. specialize (H cfg_all st_root w_defacs eq_refl). vm_compute in H.
+  inversion H as [|? ? _ H1]; subst. inversion H1 as [|? ? _ H2]; subst. inversion H2 as [|? ? H3 _]; subst. discriminate H3.
+Qed.
+Print Assumptions c13_default_access_unrepaired_refuted.
 
 (* ---- every request other than a note is answered ---- *)
 (* hypotheses: the session is alive (a terminating session drops all output), and a {pub} carries an
@@ -110,7 +173,77 @@ Qed.
 Print Assumptions c13_error_not_silence.
 
 (* the hypotheses are satisfiable *)
-Example c13_wf_example : state_wf st_att = true /\ state_wf st_root_p2p = true /\ trigger cfg_all st_att (Decoded (msg0 KHi)) = false.
+Example c13_wf_example : state_wf st_att = true /\ state_wf st_root_p2p = true /\ state_wf st_root = true /\ state_wf st_root_sys_banned = true /\
+  trigger cfg_all st_att (Decoded (msg0 KHi)) = false /\ trigger cfg_all st_root_sys_banned (Decoded w_sub_sys) = true.
 Proof. vm_compute. repeat split. Qed.
 Example c13_bad_example : bad_request st_hi (with_topic KGet s_me [] 0%Z false [] 0 true []) = true.
 Proof. reflexivity. Qed.
+
+(* ================= message content rendered into notification previews (coq/Pure/Drafty.v) ================= *)
+(* [Drafty.to_tree true] = toTree as it is (server/drafty/drafty.go), from the decoded document on; Go int
+   additions of client integers wrap at 64 bits; every slice / index expression has an explicit Panic
+   outcome; forEach runs on fuel.  The statements hold for EVERY decoded document: all integers, any
+   number of spans and entities, any nesting, any text (incl. no text: nil grapheme container). *)
+Require Tinode.Pure.Drafty Tinode.Pure.DraftyProofs.
+Open Scope Z_scope.
+
+(* toTree never panics and its recursion forEach never runs out of fuel *)
+Theorem c13_drafty_never_panics :
+  forall doc, (forall site, Drafty.to_tree true doc <> Drafty.Panic site) /\ Drafty.to_tree true doc <> Drafty.OutOfFuel.
+Proof. intros doc. exact (DraftyProofs.safe_not_panic _ (DraftyProofs.to_tree_safe doc)). Qed.
+Print Assumptions c13_drafty_never_panics.
+
+(* forEach itself: on ANY list of spans that passed the range check (in any order, sorted or not), from any
+   start >= 0 to any end within the text, it terminates with fuel = S (number of spans) and does not panic *)
+Theorem c13_drafty_for_each_total :
+  forall g start end_ spans, DraftyProofs.gcs_wf g -> 0 <= start -> end_ <= Drafty.g_length g ->
+    Forall (DraftyProofs.span_ok (Drafty.g_length g)) spans ->
+    exists nodes, Drafty.for_each (S (length spans)) g start end_ spans = Drafty.Ok nodes.
+Proof.
+  intros g start end_ spans Hg Hs He Hok.
+  destruct (DraftyProofs.for_each_ok (S (length spans)) g start end_ spans Hg (le_n _) Hs He Hok) as [nodes [E _]]. eauto.
+Qed.
+Print Assumptions c13_drafty_for_each_total.
+
+(* the container built by prepareGraphemes satisfies the invariant the slices rely on *)
+Theorem c13_drafty_container_wf : forall doc, DraftyProofs.gcs_wf (Drafty.d_gc doc).
+Proof. exact DraftyProofs.d_gc_wf. Qed.
+Print Assumptions c13_drafty_container_wf.
+
+(* PlainText (up to TrimSpace) and Preview (up to copyLight / json.Marshal), for every preview length that is a Go int *)
+Theorem c13_drafty_plain_text_never_panics :
+  forall doc, (forall site, Drafty.plain_text true doc <> Drafty.Panic site) /\ Drafty.plain_text true doc <> Drafty.OutOfFuel.
+Proof. intros doc. exact (DraftyProofs.safe_not_panic _ (DraftyProofs.plain_text_safe doc)). Qed.
+Print Assumptions c13_drafty_plain_text_never_panics.
+
+Theorem c13_drafty_preview_never_panics :
+  forall doc max_len, max_len < Drafty.two63 ->
+    (forall site, Drafty.preview true max_len doc <> Drafty.Panic site) /\ Drafty.preview true max_len doc <> Drafty.OutOfFuel.
+Proof. intros doc max_len H. exact (DraftyProofs.safe_not_panic _ (DraftyProofs.preview_safe max_len doc H)). Qed.
+Print Assumptions c13_drafty_preview_never_panics.
+
+(* the range check before /repo commit 6cc931e ("s.at < -1 || s.end > textLen" only) *)
+Definition c13_drafty_unrepaired_statement : Prop := forall doc site, Drafty.to_tree false doc <> Drafty.Panic site.
+
+(* refuted: {"txt":"hello","fmt":[{"at":4611686018427387904,"len":4611686018427387904,"tp":"ST"}]}: at+len wraps to -2^63,
+   passes the check, and forEach slices the text up to 2^62 *)
+Theorem c13_drafty_unrepaired_refuted : ~ c13_drafty_unrepaired_statement.
+Proof. intros H. exact (H Drafty.doc_overflow Drafty.site_sizes_index DraftyProofs.unrepaired_panics). Qed.
+Print Assumptions c13_drafty_unrepaired_refuted.
+
+(* ... and the overflow is the only trigger: when no at+len leaves the int range the old check behaves as the new one *)
+Theorem c13_drafty_unrepaired_partial :
+  forall doc, DraftyProofs.no_overflow doc ->
+    (forall site, Drafty.to_tree false doc <> Drafty.Panic site) /\ Drafty.to_tree false doc <> Drafty.OutOfFuel.
+Proof. intros doc H. rewrite (DraftyProofs.unrepaired_same doc H). exact (DraftyProofs.safe_not_panic _ (DraftyProofs.to_tree_safe doc)). Qed.
+Print Assumptions c13_drafty_unrepaired_partial.
+
+(* the model computes: nested spans, an attachment with entity data, a preview cut at 3 graphemes *)
+Example c13_drafty_example :
+  Drafty.plain_text true Drafty.doc_nested
+    = Drafty.Ok [91;70;73;76;69;32;39;102;39;93;42;104;95;101;108;95;108;111;42]%N      (* [FILE 'f']*h_el_lo* *)
+  /\ DraftyProofs.no_overflow Drafty.doc_nested.
+Proof.
+  split; [vm_compute; reflexivity|]. intros i Hi. cbn in Hi.
+  repeat (destruct Hi as [<- | Hi]; [vm_compute; split; [discriminate|reflexivity]|]). destruct Hi.
+Qed.
